@@ -484,6 +484,69 @@ void shrink(const Plan& p, std::vector<Plan>& out) {
   }
 }
 
+// ---- error handler / logger inherited from the holder -----------------------------------------------------------------
+// An emitter without a handler of its own reports through the handler of the holder it is attached to. After the
+// holder was recycled (or the emitter moved to another holder) with ANOTHER handler, errors must reach that one -
+// nothing of the earlier attachment may be referenced any more (the old handler may be gone).
+void execute_handlers(const Plan& plan) {
+  gen::Target target = gen::Target(plan.get("target", 1));
+  int kind = int(plan.get("emitter", 0));       // 0 assembler, 1 builder, 2 compiler
+  int how = int(plan.get("recycle", 0));        // 0 reset+init (same holder), 1 reinit (same holder), 2 detach + attach to another holder
+  apply_knobs(knobs_from(*std::unique_ptr<Rng>(new Rng(sim::stream(plan.seed, "knobs")))), plan.seed);
+  sim::begin_op(Op(), 0);
+  {
+    std::unique_ptr<gen::RecordingHandler> ha(new gen::RecordingHandler()), hb(new gen::RecordingHandler());
+    Objects o(0);
+    CodeHolder other;
+    Environment env(gen::arch_of(target));
+    SIM_CHECK(o.code->init(env) == Error::kOk, "c16:setup", "init failed");
+    o.code->set_error_handler(ha.get());
+    BaseEmitter& e = o.emitter(target, kind == 0 ? kAsm : kind == 1 ? kBuilder : kCompilerPhys);
+    e.reset_error_handler();
+    SIM_CHECK(o.code->attach(&e) == Error::kOk, "c16:setup", "attach failed");
+    // first use: a program (compiler: a function through finalize(), which runs the passes)
+    RoundSpec s = decode(plan.ops.empty() ? Op() : plan.ops[0]);
+    s.target = target; s.emitter_kind = kind == 0 ? kAsm : kind == 1 ? kBuilder : kCompilerVirt; s.mode = 0; s.logger = false; s.nfuncs = 1;
+    std::vector<uint32_t> errs;
+    (void)generate(s, *o.code, e, *ha, errs, false);
+    uint64_t junk[2] = {1, 2};
+    (void)e.embed_data_array(TypeId(250), junk, 2, 1);   // an error (invalid type id) while the first handler is in place
+    SIM_CHECK(ha->count >= 1, "c16:setup", "the inherited handler was not invoked in the first place");
+    // recycle with another handler
+    CodeHolder* now = o.code.get();
+    if (how == 0) { o.code->reset(plan.get("hard", 0) ? ResetPolicy::kHard : ResetPolicy::kSoft); SIM_CHECK(o.code->init(env) == Error::kOk, "c16:setup", "init failed"); o.code->set_error_handler(hb.get()); SIM_CHECK(o.code->attach(&e) == Error::kOk, "c16:setup", "attach failed"); }
+    else if (how == 1) { SIM_CHECK(o.code->reinit() == Error::kOk, "c16:setup", "reinit failed"); o.code->set_error_handler(hb.get()); }
+    else { SIM_CHECK(o.code->detach(&e) == Error::kOk, "c16:setup", "detach failed"); SIM_CHECK(other.init(env) == Error::kOk, "c16:setup", "init failed"); other.set_error_handler(hb.get()); SIM_CHECK(other.attach(&e) == Error::kOk, "c16:setup", "attach failed"); now = &other; }
+    // the first handler goes away (poisoned by the sanitizer): whoever still references it is caught
+    ha.reset();
+    SIM_CHECK(e.error_handler() == hb.get(), "c16:residue-error-handler", "after recycling (%d) the emitter reports to %p, the holder's handler is %p", how, (void*)e.error_handler(), (void*)hb.get());
+    (void)e.embed_data_array(TypeId(250), junk, 2, 1);
+    SIM_CHECK(hb->count >= 1, "c16:residue-error-handler", "an error after recycling (%d) did not reach the handler of the holder the emitter is attached to", how);
+    (void)now;
+    if (kind != 0 && e.is_initialized()) { (void)now->detach(&e); }
+  }
+  sim::end_op();
+  sim::mark_nontrivial();
+  sim::add_steps(3);
+  sim::heap::arm(false);
+  SIM_CHECK(sim::heap::live_blocks_this_run() == 0, "c16:leak", "%zu heap block(s) left:%s", sim::heap::live_blocks_this_run(), sim::heap::describe_live_blocks_this_run().c_str());
+}
+
+Plan generate_handlers(uint64_t seed, bool) {
+  Plan p;
+  Rng cfg = sim::stream(seed, "cfg");
+  p.set("target", int64_t(cfg.below(3)));
+  p.set("emitter", int64_t(cfg.below(3)));
+  p.set("recycle", int64_t(cfg.below(3)));
+  p.set("hard", int64_t(cfg.below(2)));
+  Op op; op.kind = kRound; op.a[0] = 0; op.a[1] = int64_t(cfg.next() & 0x7fffffffffffll); op.a[2] = int64_t(5 + cfg.below(30)); op.a[3] = 0;
+  p.ops.push_back(op);
+  return p;
+}
+
+const sim::Scenario kHandlers = {"C16", "inherited-handler", "asan", 6000, 60000, generate_handlers, execute_handlers, op_name, nullptr, nullptr};
+sim::Registrar r4(kHandlers);
+
 const sim::Scenario kRounds = {"C16", "rounds", "asan", 60000, 1200000, generate_rounds, execute_rounds, op_name, shrink, nullptr};
 const sim::Scenario kRoundsFaults = {"C16", "rounds-faults", "asan", 30000, 600000, generate_rounds_faults, execute_rounds, op_name, shrink, nullptr};
 const sim::Scenario kFuncsS = {"C16", "compiler-functions", "asan", 15000, 300000, generate_funcs, execute_funcs, op_name, nullptr, nullptr};
